@@ -7,6 +7,7 @@ import (
 	"encoding/xml"
 	"net/http"
 	"net/url"
+	"path/filepath"
 	"sort"
 	"strings"
 
@@ -333,8 +334,11 @@ func statusIn(code int, set []int) bool {
 // the harness
 
 func verifUniverse() []string {
-	if vrt.Param("universe", 0) == 1 {
+	switch vrt.Param("universe", 0) {
+	case 1:
 		return verifUniverseThorough
+	case 2:
+		return verifUniverseDeep
 	}
 	return verifUniverseQuick
 }
@@ -351,6 +355,8 @@ func rootExcluded(r *verifReq) bool {
 	// so the request must be refused before anything is touched
 	return false
 }
+
+var verifWantOpenFault bool
 
 type verifRun struct {
 	t      *verifTree
@@ -372,6 +378,15 @@ func runStep(faults bool, conditional bool) *verifRun {
 	vrt.Assume(!rootExcluded(req))
 	run := &verifRun{t: t, req: req, before: t.copy()}
 	run.root = verifMaterialise(t)
+	if verifWantOpenFault && (req.method == "GET" || req.method == "HEAD") && vrt.Choose("file-cannot-be-opened", 2) == 1 {
+		// fault: the addressed file exists but the OS refuses to open it
+		vrt.Assume(t.kind[req.pi] == kFile)
+		if vrt.Symbolic() {
+			verifOpenFault = true
+		} else if !verifMakeUnopenable(filepath.Join(run.root, req.path)) {
+			vrt.Assume(false)
+		}
+	}
 	fs := LocalFileSystem(run.root)
 	if conditional {
 		symConditional(run, fs)
